@@ -247,6 +247,7 @@ type Hist struct {
 	maxSlots int
 	maxNodes int
 	big      bool
+	last      *Node // container the previous step worked on (pick locality)
 	sizeClass int // 0 small, 1 big (48 slots), 2 huge list first, 3 deep chain first
 }
 
